@@ -352,6 +352,7 @@ func runC18(w *World) {
 		g.exVals = nil
 		g.wExpire, g.wJSON, g.wMulti = 0, 0, 1
 		g.noFlush = true
+		g.wBad = 4
 		return g
 	}
 	var clients []*Actor
